@@ -86,7 +86,7 @@ def flat_offset(xs, k, piece, *extra):
 
 def same_item(a, b):
     """the same object (values that have no identity of their own -- strings, numbers: the same value)"""
-    return a is b or (isinstance(a, (str, int)) and a == b)
+    return a == b if isinstance(a, (str, int)) else a is b
 
 
 def is_flat_concat(out, xs, n, piece, *extra):
